@@ -75,8 +75,9 @@ def h_prepare(ctx):
     X = np.empty(shape, dtype=object)
     for q, idx in enumerate(np.ndindex(*shape)):
         X[idx] = vals[q]
-    form = ctx.choice("form", 3)
-    data = [X, fm.UNITS.Quantity(X, "m"), X.reshape(-1, order="F")][form]
+    form = ctx.choice("form", 5)
+    data = [X, fm.UNITS.Quantity(X, "m"), X.reshape(-1, order="F"), fm.UNITS.Quantity(X.reshape(-1, order="F"), "m"),
+            X[np.newaxis, ...]][form]
     out = dtools.prepare(data, info)
     m = out.magnitude
     ctx.check(np.ma.isMaskedArray(m), "prepare-not-masked")
@@ -195,7 +196,7 @@ def families(tier):
                                     f"symbolic values",
                              must_cover=(["partial"] if int(np.prod(shape)) > 1 else []) + ["none-masked", "all-masked"]))
     fams.append(dict(name="prepare:2x3", ref="vf.props.c18:h_prepare", params={},
-                     bounds="2x3 grid, all 64 masks, payload as array / quantity / flat F-ordered array",
+                     bounds="2x3 grid, all 64 masks, payload as array / quantity / flat F-ordered array / flat quantity / with time axis",
                      must_cover=["done"]))
     fams.append(dict(name="accept:2x3", ref="vf.props.c18:h_accept", params={},
                      bounds="9 x 9 mask specifications, 8 layouts of the producer grid, 8 layouts of the consumer grid or "
